@@ -281,6 +281,7 @@ func c02(r *core.Report) {
 	r.Rule("C02-SEND-COUNTER", "every state of the extracted session machine that can send has a post-handshake counter", 4)
 	// C02-AUTHENTIC (shared with C03-AUTH-PATH): a plaintext is delivered only by a session state that
 	// was reached through the role's signature verification, i.e. it came from the authenticated peer
+	r.Rule("C02-COUNTER-NO-RESET", "no transition from a state with a post-handshake counter stores the counter (only Send's atomic increment moves it)", 10)
 	r.Rule("C02-AUTHENTIC", "every session state that can deliver application data was reached through the role's signature verifications", 4)
 	if ts := buildTypestate(r); ts != nil {
 		if ts.err != nil {
@@ -289,6 +290,7 @@ func c02(r *core.Report) {
 			ts.describe(r)
 			ts.checkSendCounter("C02-SEND-COUNTER")
 			ts.checkAuthPath("C02-AUTHENTIC")
+			ts.checkCounterNoReset("C02-COUNTER-NO-RESET")
 		}
 	}
 
